@@ -16,11 +16,13 @@ LeafStructs == {ITEM, S_ATTR, S_ELEM, S_LIST}
 STRD == [t |-> "str", disp |-> 1]
 \* items of attribute lists may contain white space (written as character references)
 STRW == [t |-> "str", ws |-> 1]
-AttrT == {STR, STRD, NUM, BOOL, FLOAT, UNITE, Opt(STR), SList(STR), SList(STRW), SList(NUM), SList(STRD)}
+AttrT == {STR, STRD, NUM, BOOL, FLOAT, UNITE, Opt(STR), SList(STR), SList(STRW), SList(NUM), SList(STRD), SList(BOOL), SList(FLOAT), SList(UNITE)}
 ElemT == {STR, STRD, NUM, BOOL, UNITE, Opt(STR), Opt(NUM), List(STR), List(NUM)}
          \cup LeafStructs \cup {Opt(s) : s \in LeafStructs} \cup {List(s) : s \in LeafStructs}
-TextT == {STR, STRD, NUM, SList(STR), Opt(STR)}
-ValueT == {CHOICE, CHOICE2, Opt(CHOICE), List(CHOICE), List(CHOICE3), List(Opt(CHOICE))}
+TextT == {STR, STRD, NUM, SList(STR), SList(BOOL), SList(UNITE), Opt(STR)}
+\* a choice whose text variant is a TUPLE variant (written as a space-separated list)
+CHOICE4 == [t |-> "enum", variants |-> <<Var(n_One, "unit", STR), Var(n_text, "ttext", SList(NUM))>>]
+ValueT == {CHOICE, CHOICE2, CHOICE4, Opt(CHOICE), List(CHOICE), List(CHOICE3), List(CHOICE4), List(Opt(CHOICE))}
 
 AttrKeys == << <<97>>, <<98>> >>          \* a b
 ElemKeys == << <<99>>, <<97>> >>          \* c a   (an element may share its name with an attribute)
@@ -40,11 +42,11 @@ ValOf(T, i) ==
       [] T.t = "enum" -> EnumVal(T, i)
       [] OTHER -> None
 \* items of space-separated lists: non-empty, no blanks
-ItemOf(T, i) == IF T.t = "num" THEN ValOf(T, i) ELSE IF i = 1 THEN S(<<97>>) ELSE IF "ws" \in DOMAIN T THEN S(<<60, 34, 13, 32>>) ELSE S(<<60, 34>>)     \* a  <"  (+ CR SP in attribute lists)
+ItemOf(T, i) == IF T.t \in {"num", "bool", "float", "unit"} THEN ValOf(T, i) ELSE IF i = 1 THEN S(<<97>>) ELSE IF "ws" \in DOMAIN T THEN S(<<60, 34, 13, 32>>) ELSE S(<<60, 34>>)     \* a  <"  (+ CR SP in attribute lists)
 \* first: the first variant; second: the text variant if there is one, else the last variant
 EnumVal(T, i) ==
     LET pick == IF i = 1 THEN 1
-                ELSE LET tx == {j \in 1..Len(T.variants) : T.variants[j].kind = "text"} IN
+                ELSE LET tx == {j \in 1..Len(T.variants) : T.variants[j].kind \in {"text", "ttext"}} IN
                      IF tx # {} THEN CHOOSE j \in tx : TRUE ELSE Len(T.variants)
         var == T.variants[pick] IN
     IF var.kind = "unit" THEN [u |-> var.name]
@@ -61,7 +63,7 @@ VariantVal(T, j) ==
 ListChoice(T, i) ==
     IF i = 1 THEN A([j \in 1..(Len(T.of.variants) + 1) |-> IF j <= Len(T.of.variants) THEN VariantVal(T.of, j) ELSE VariantVal(T.of, 1)])
     ELSE \* the second value: the text item (if any) in front of every other variant: text, v1, text, v2, ...
-         LET tx == {j \in 1..Len(T.of.variants) : T.of.variants[j].kind = "text"} IN
+         LET tx == {j \in 1..Len(T.of.variants) : T.of.variants[j].kind \in {"text", "ttext"}} IN
          IF tx = {} THEN A(<<EnumVal(T.of, 2)>>)
          ELSE LET t == CHOOSE j \in tx : TRUE
                   others == SelectSeq([j \in 1..Len(T.of.variants) |-> j], LAMBDA j : j # t) IN
@@ -93,7 +95,7 @@ ValueOfSch(sch, k) ==
 \* only without child elements; no Option inside text content or inside lists (an absent item leaves no trace); strings in
 \* element / text position have no leading or trailing blanks (the canonical values have none)
 HasTextVariant(T) == LET E == IF T.t \in {"opt", "list"} THEN (IF T.of.t = "opt" THEN T.of.of ELSE T.of) ELSE T IN
-                     E.t = "enum" /\ \E j \in 1..Len(E.variants) : E.variants[j].kind = "text"
+                     E.t = "enum" /\ \E j \in 1..Len(E.variants) : E.variants[j].kind \in {"text", "ttext"}
 InRT(sch) ==
     /\ sch.content # <<>> /\ sch.content[1] = "text" => sch.elems = <<>> /\ sch.content[2].t # "opt"
     /\ sch.content # <<>> /\ sch.content[1] = "value" =>
